@@ -297,7 +297,7 @@ def _family_key(k):
     parts[1] = "*::" + parts[1].rsplit("::", 1)[-1]
     parts = [p for p in parts if not p.startswith("via ")]
     # `for x in it { f(x) }` and `it.for_each(|x| f(x))` are the same consumer; the closure's own return is not an effect
-    parts = ["for:loop" if p in ("call:Iterator::for_each:for_each",) else p for p in parts]
+    parts = ["for:loop" if p in ("call:Iterator::for_each:for_each", "call:Iterator::try_for_each:try_for_each") else p for p in parts]
     parts = ["{" + ",".join(x for x in p[1:-1].split(",") if x not in ("return", "λreturn", "exit")) + "}" if p.startswith("{") and p.endswith("}") else p
              for p in parts]
     return re.sub(r"#\d+$", "", "|".join(parts))
